@@ -139,7 +139,7 @@ func (w *World) Run(restarts int) (res Result, err error) {
 				act = "integrateall"
 			case w.C.Forked && w.pass >= 3+forkedRefusals:
 				act = "cancel" // a source that cannot prove consistency is refused pass after pass
-			case w.grown >= w.C.Growth && w.contiguous() >= w.srcSize && w.sthSize == w.srcSize && w.pendingFaults() == 0:
+			case w.grown >= w.C.Growth && w.contiguous() >= w.srcSize && w.sthSize == w.srcSize:
 				res.Complete = true
 				act = "cancel"
 			}
@@ -163,7 +163,7 @@ func (w *World) Run(restarts int) (res Result, err error) {
 		w.kinds["ret:"+res.Ret] = true
 		w.mu.Unlock()
 		w.Final(res.Ret, res.Ret == "nil" && !w.C.Cont, 0)
-		if restarts > 0 && !res.Complete {
+		if restarts > 0 && !res.Complete && res.Ret != "nil" {
 			restarts--
 			res.Restarts++
 			w.mu.Lock()
@@ -179,15 +179,4 @@ func (w *World) Run(restarts int) (res Result, err error) {
 	res.DestInt, res.Passes = w.destInt, w.pass
 	w.mu.Unlock()
 	return res, nil
-}
-
-func (w *World) pendingFaults() int {
-	n := 0
-	for _, l := range w.F.Add {
-		n += len(l)
-	}
-	for _, l := range w.F.Fetch {
-		n += len(l)
-	}
-	return n
 }
